@@ -160,6 +160,17 @@ def build_model(impl, rng, L, fixed):
                 g.do(('remove_asset', rng.choice(multi)))
     except Exception:
         pass
+    # entry points as the library's own tests set them: by assignment, possibly with no step or a step named twice
+    try:
+        if g.w.m.attackers and g.w.m.assets and rng.random() < 0.25:
+            t = rng.choice(g.w.m.attackers)
+            a = rng.choice(g.w.m.assets)
+            if not any(a is x for x, _ in t.entry_points):
+                steps = [s.name for s in g.w.lg.get_asset_by_name(str(a.type)).attack_steps]
+                st = rng.choice(steps) if steps else 't'
+                t.entry_points = list(t.entry_points) + [(a, rng.choice([[], [st, st], [st]]))]
+    except Exception:
+        pass
     m = g.w.m
     m.name = rng.choice(['model', 'müdel ✓', 'a: b', '0123', 'mo\x85del', 'two\nlines'])
     # names that are significant to YAML / unicode, applied to live assets (kept unique)
@@ -201,7 +212,11 @@ def property_violations(impl, m, lcf, d):
         except Exception as e:
             out.append(f'loading the saved .{ext} file raised {type(e).__name__}')
             continue
-        got = m2._to_dict()
+        try:
+            got = m2._to_dict()
+        except Exception as e:
+            out.append(f'the model loaded from .{ext} cannot be serialized again ({type(e).__name__}): it is not the saved one')
+            continue
         if json.dumps(got, sort_keys=True, default=str) != json.dumps(ref, sort_keys=True, default=str):
             out.append(f'the model loaded from .{ext} differs from the saved one')
         for a in m.assets:
